@@ -312,6 +312,51 @@ def r5_console_urls(chk: Check) -> None:
             chk.violation("C15.R5", fn, construct, "the base URL is printed verbatim: credentials given as URL userinfo appear on the console although sanitization is on", fn.loc(n))
 
 
+def r6_late_bound_config(chk: Check) -> None:
+    chk.rule("C15.R6", "LATE BINDING(active sanitization config): `configure()` / `extend()` REBIND a module global, so every reader must look the global up when it is called - a parameter default, a module-level alias or a `from ... import` of that name captures the object that existed at import time and ignores later customisation", floor=2)
+    P = chk.project
+    n = 0
+    for mod in P.modules.values():
+        rebound: set[str] = set()
+        for fn in ast.walk(mod.tree):
+            if isinstance(fn, (ast.FunctionDef, ast.AsyncFunctionDef)):
+                g = {x for s_ in ast.walk(fn) if isinstance(s_, ast.Global) for x in s_.names}
+                for s_ in ast.walk(fn):
+                    if isinstance(s_, (ast.Assign, ast.AugAssign, ast.AnnAssign)):
+                        for t in (s_.targets if isinstance(s_, ast.Assign) else [s_.target]):
+                            if isinstance(t, ast.Name) and t.id in g:
+                                rebound.add(t.id)
+        if not rebound:
+            continue
+        for name in sorted(rebound):
+            # (a) parameter defaults, (b) module-level aliases in the defining module
+            for f in mod.functions.values():
+                if isinstance(f.node, ast.Lambda):
+                    continue
+                a = f.node.args
+                for d in list(a.defaults) + [x for x in a.kw_defaults if x is not None]:
+                    n += 1
+                    if any(isinstance(x, ast.Name) and x.id == name for x in ast.walk(d)):
+                        chk.violation("C15.R6", f, f"parameter default `{unparse(d, 40)}`", f"the default is evaluated once, when the function is defined: after `configure()` / `extend()` rebind `{name}`, `{f.name}` keeps sanitizing with the ORIGINAL key / marker lists (customised keys leak)", f.loc(d))
+            for s_ in mod.tree.body:
+                if isinstance(s_, ast.Assign) and isinstance(s_.value, ast.Name) and s_.value.id == name:
+                    chk.violation("C15.R6", mod.relpath, f"module-level alias `{unparse(s_, 60)}`", f"the alias keeps the object `{name}` had at import time", mod.relpath)
+            # readers inside functions are fine (looked up at call time)
+            readers = [f for f in mod.functions.values() if any(isinstance(x, ast.Name) and x.id == name and isinstance(x.ctx, ast.Load) for x in walk_body(f.node, into_nested=True))]
+            for f in readers:
+                n += 1
+                chk.ok("C15.R6", f, f"`{name}` read at call time", "", f.loc())
+            # (c) import-time capture in other modules
+            for other in P.modules.values():
+                if other is mod:
+                    continue
+                imp = other.imports.get(name)
+                if imp and imp[0].endswith(mod.name.rsplit(".", 1)[-1]) or (imp and mod.name.endswith(imp[0].lstrip("."))):
+                    chk.violation("C15.R6", other.relpath, f"from {imp[0]} import {name}", f"`{name}` is rebound by configure()/extend(); importing the name copies the import-time object", other.relpath)
+    if n < 2:
+        chk.undecided("C15.R6", "<discovery>", f"sites={n}", "no rebindable configuration global found (did the mechanism change?)")
+
+
 def rfwd_forwarding(chk: Check) -> None:
     from . import shared
 
@@ -319,4 +364,4 @@ def rfwd_forwarding(chk: Check) -> None:
 
 
 def rules(tier: str) -> list:  # type: ignore[type-arg]
-    return [r1_writers, r2_curl, r3_plumbing, r4_sanitizer, r5_console_urls, rfwd_forwarding]
+    return [r1_writers, r2_curl, r3_plumbing, r4_sanitizer, r5_console_urls, r6_late_bound_config, rfwd_forwarding]
